@@ -70,7 +70,7 @@ fn preamble() -> Component {
     component![
         "bMsgtype" => 0 as u8,
         "flag" => 0 as u8,
-        "wMsgSize" => DynOption::new(U16::LE(0), |size| MessageOption::Size("message".to_string(), size.inner() as usize - 4)),
+        "wMsgSize" => DynOption::new(U16::LE(0), |size| MessageOption::Size("message".to_string(), (size.inner() as usize).saturating_sub(4))),
         "message" => Vec::<u8>::new()
     ]
 }
@@ -122,6 +122,11 @@ pub fn client_connect(s: &mut dyn Read) -> RdpResult<()> {
 
     let mut license_message = preamble();
     license_message.read(s)?;
+
+    // the size covers the four bytes of the preamble
+    if cast!(DataType::U16, license_message["wMsgSize"])? < 4 {
+        return Err(Error::RdpError(RdpError::new(RdpErrorKind::InvalidSize, "Invalid license message size")))
+    }
 
     // low nibble is the preamble version, ExtendedErrorMsgSupported may be set by the server
     if cast!(DataType::U8, license_message["flag"])? & 0x0F != Preambule::PreambleVersion30 as u8 {
